@@ -38,6 +38,9 @@ OPTSETS = {
     "factory2-symmetry": (("factory2", "symmetry"), "", False, False),
     "finite": (("finite",), "", False, False),
     "finite-ev": (("finite",), "", True, False),
+    "two-finite": (("two", "finite"), "", False, False),
+    "finite-mixed": (("finite-mixed",), "", False, False),
+    "k-finite": (("finite",), "k", False, False),
     "smallest": ((), "", False, True),
     "two": (("two",), "", False, False),
     "two-smallest": (("two",), "", False, True),
@@ -56,9 +59,27 @@ _TABLES = {}
 
 
 def tables(S):
-    """S = 2, 3: canonical tables with S states; S = "2d": the two-state tables on doubled (redundant) automata."""
+    """S = 2, 3: canonical tables with S states; S = "2d": the two-state tables on doubled (redundant) automata;
+    S = "F4": 512 four-state tables whose states 1, 2 accept finite languages (for pack-offering verification)."""
     if S not in _TABLES:
-        if S == "2d":
+        if S == "F4":
+            # four states: 0 (any transitions), 1 -> {2,3}, 2 -> {3}, 3 dead: states 1 and 2 accept finite languages
+            out = []
+            for d0 in itertools.product(range(4), repeat=2):
+                for d1 in itertools.product((2, 3), repeat=2):
+                    for acc in itertools.product((0, 1), repeat=3):
+                        out.append(R.Table((d0, d1, (3, 3), (3, 3)), acc + (0,)))
+            _TABLES[S] = out
+        elif S == "F5":
+            # five states: 0 -> {0,1}, 1 -> {2,3,4}, 2 -> {3,4}, 3 -> {4} accepting, 4 dead: nested finite languages
+            out = []
+            for d0 in itertools.product((0, 1), repeat=2):
+                for d1 in itertools.product((2, 3, 4), repeat=2):
+                    for d2 in itertools.product((3, 4), repeat=2):
+                        for acc in itertools.product((0, 1), repeat=3):
+                            out.append(R.Table((d0, d1, d2, (4, 4), (4, 4)), acc + (1, 0)))
+            _TABLES[S] = out
+        elif S == "2d":
             _TABLES[S] = [R.doubled(t) for t in R.canonical_tables(2)]
         else:
             _TABLES[S] = R.canonical_tables(S)
